@@ -167,6 +167,7 @@ def saturation_mutagenesis(model, X, args=None, start=0, end=-1, batch_size=32,
 		The outputs from the model for each of the perturbed sequences.
 	"""
 
+	end = end if end >= 0 else X.shape[-1] + 1 + end
 	y0 = predict(model, X, args=args, device=device)
 	
 	y_hat = []
@@ -189,8 +190,8 @@ def saturation_mutagenesis(model, X, args=None, start=0, end=-1, batch_size=32,
 			*y_hat_.shape[1:])
 	else:
 		y_hat = [
-			torch.cat(y_).reshape(X.shape[0], X.shape[2], X.shape[1], 
-				*y_[0].shape[1:]).transpose(2, 1) for y_ in zip(*y_hat)
+			torch.cat(y_).reshape(X.shape[0], X.shape[1], end-start, 
+				*y_[0].shape[1:]) for y_ in zip(*y_hat)
 		]
 
 	if raw_outputs == False:
